@@ -4295,3 +4295,44 @@ func E5CIDToGIDEntries(c *core.Ctx, r *core.Report) {
 	r.Count("E5.cid-to-gid-bytes", n)
 	r.Floor("E5.cid-to-gid-bytes", 2)
 }
+
+// E5ImageSampleDepth: image dictionaries declare the sample depth the sample buffers are written in.
+func E5ImageSampleDepth(c *core.Ctx, r *core.Report) {
+	r.Rule("E5.image-sample-depth", "embedImage writes the samples of an image and of its soft mask one byte each (`stream[(y*W+x)*k+j] = byte`), rows following each other without padding. That layout is what /BitsPerComponent 8 declares; for any smaller depth PDF 32000 8.9.3 starts every row on a byte boundary, so a run-time depth needs a row stride the buffers do not have. Every /BitsPerComponent entry of a dictionary in the PDF writer (composite literal or `dict[\"BitsPerComponent\"] = v`) is therefore a constant equal to 8. A depth chosen at run time (1 bit for a mask that is all 0/255, packed straight through) shears every image whose width is not a multiple of 8. Limit: a correct packed layout with padded rows would be reported as well; none exists in the tree")
+	p := c.MustPkg("renderers/pdf")
+	info := p.TypesInfo
+	n := 0
+	check := func(fd *ast.FuncDecl, v ast.Expr) {
+		n++
+		key := fmt.Sprintf("pdf.%s|/BitsPerComponent #%d is the constant 8", core.FuncName(fd), n)
+		if k, ok := core.ConstInt(info, v); ok && k == 8 {
+			r.OK("E5.image-sample-depth", key, c.Pos(v.Pos()), "")
+		} else if ok {
+			r.Fail("E5.image-sample-depth", key, c.Pos(v.Pos()), fmt.Sprintf("the dictionary declares %d bits per sample, the buffers hold one byte per sample", k))
+		} else {
+			r.Fail("E5.image-sample-depth", key, c.Pos(v.Pos()), fmt.Sprintf("the sample depth `%s` is decided at run time, the buffers hold one byte per sample and rows are not padded to bytes", c.Src(v)))
+		}
+	}
+	for _, fd := range core.AllFuncDecls(p) {
+		if fd.Body == nil {
+			continue
+		}
+		ast.Inspect(fd.Body, func(m ast.Node) bool {
+			switch x := m.(type) {
+			case *ast.KeyValueExpr:
+				if k, _ := constString(info, x.Key); k == "BitsPerComponent" {
+					check(fd, x.Value)
+				}
+			case *ast.AssignStmt:
+				if len(x.Lhs) == 1 && len(x.Rhs) == 1 {
+					if ie, ok := x.Lhs[0].(*ast.IndexExpr); ok && func() bool { k, _ := constString(info, ie.Index); return k == "BitsPerComponent" }() {
+						check(fd, x.Rhs[0])
+					}
+				}
+			}
+			return true
+		})
+	}
+	r.Count("E5.sample-depth-entries", n)
+	r.Floor("E5.sample-depth-entries", 2)
+}
